@@ -293,6 +293,13 @@ func (e *Env) StatMax(k string, v float64) {
 
 func (e *Env) Nontrivial() { e.mu.Lock(); e.nt = true; e.mu.Unlock() }
 
+// ntFor marks the episode non-trivial for one property (only counted by that property's check).
+func (e *Env) ntFor(prop string) {
+	if prop == e.Prop {
+		e.Nontrivial()
+	}
+}
+
 func (e *Env) Result(sample any) *Result {
 	e.mu.Lock()
 	defer e.mu.Unlock()
